@@ -8,8 +8,10 @@ text parses to the literal, an operator node with the operands as `left` / `righ
 list, `JumpIf…` / `ElseJump` / `And` / `Or` nodes for conditionals, else-chains and logic, `NestedExpression` with the body
 as `right`, `Reapply`, the identifier-application nodes, `Group` nodes anywhere.  It is a RELATION: every array that
 satisfies it is covered (the real parser's output for the printed program, or `treeOf` of Props/C01Build.lean).
-Not representable (so outside the tie): side-effect blocks (`e [b]`, the `SideEffect` node hangs off the `right` of a
-value node), literal values other than unit / true / false / number / text / byte list / symbol, lists with fewer than two
+A side-effect block after a value (`v [b]`: the `SideEffect` node hangs off the `right` of the value node, the body off the
+`right` of the `SideEffect` node) is `Rep.side`.
+Not representable (so outside the tie): a side-effect block anywhere else (`[b] v`, `(e) [b]`, `v [b] [c]`: the builder
+drops the content of the group / the first block — it never looks at the `left` of a `SideEffect` node), literal values other than unit / true / false / number / text / byte list / symbol, lists with fewer than two
 items, and — without a `Group` node around them, as in the language — a conditional or else-chain as the direct left operand
 of `&&` / `||` or as an arm / the final arm of an else-chain, a list as a direct item of a list of the same kind.
 -/
@@ -68,6 +70,12 @@ inductive LitRep (pn : ParseNode) : Val F → Prop where
       LitRep pn (.sym (parseSymbol rest))
   | prop : pn.definition = .property → LitRep pn (.sym (parseSymbol pn.lexToken.text))
 
+/-- the expression a value node stands for: a literal, `$`, an identifier -/
+inductive LeafRep (pn : ParseNode) : Expr F → Prop where
+  | lit {v : Val F} : LitRep pf pn v → LeafRep pn (.lit v)
+  | input : pn.definition = .value → LeafRep pn .input
+  | ident : pn.definition = .identifier → LeafRep pn (.ident (parseSymbol pn.lexToken.text))
+
 variable (tree : Array ParseNode) (bodies : List (Nat × Expr F))
 
 /-- the definition of node `i` is not `d` (an item of a `d`-list is not itself a `d`-list node) -/
@@ -113,6 +121,9 @@ inductive Rep : Nat → Nat → Nat → Expr F → Prop where
   | infixApply {lo hi i l r : Nat} {a b : Expr F} {pn : ParseNode} : tree[i]? = some pn → pn.definition = .infixApply →
       pn.left = some l → pn.right = some r → Rep lo i l a → Rep (i + 1) hi r b →
       Rep lo hi i (.infixApply a (parseSymbol (trimMatches '`' pn.lexToken.text)) b)
+  | side {hi i b : Nat} {x body : Expr F} {pn ps : ParseNode} : tree[i]? = some pn → pn.left = none →
+      pn.right = some (i + 1) → LeafRep pf pn x → tree[i + 1]? = some ps → ps.definition = .sideEffect → ps.right = some b →
+      Rep (i + 2) hi b body → Rep i hi i (.sideAfter x body)
   | nested {hi i r id : Nat} {b : Expr F} {pn : ParseNode} : tree[i]? = some pn → pn.definition = .nestedExpression →
       pn.right = some r → lookupBody bodies id = some b → Rep (i + 1) hi r b → Rep i hi i (.nested id)
   | emptyNested {i : Nat} {pn : ParseNode} : tree[i]? = some pn → pn.definition = .nestedExpression → pn.right = none →
